@@ -90,8 +90,9 @@ def make_workload(rng):
     nticks = rng.randint(2, 30)
     at = {}
     npipes = rng.randint(1, 6)
+    same_ids = rng.random() < 0.15       # e.g. two generators that both number from p1: the writer assigns the ids of the file
     for k in range(npipes):
-        p = Pipeline(f"x{k}", rng.choice(list(Priority)))
+        p = Pipeline("p1" if same_ids else f"x{k}", rng.choice(list(Priority)))
         n = rng.choice([1, 1, 2, 3, 5, 8, 12])
         ops = []
         for i in range(n):
@@ -104,7 +105,7 @@ def make_workload(rng):
     return at, tps, nticks
 
 
-MALFORMED = ["first_no_prio", "first_no_arr", "later_prio", "later_arr", "bad_prio", "bad_law", "undefined_parent", "forward_parent", "lowercase_prio"]
+MALFORMED = ["first_no_prio", "first_no_arr", "later_prio", "later_arr", "later_both", "bad_prio", "bad_law", "undefined_parent", "forward_parent", "lowercase_prio"]
 
 
 def mutate(text, variant, rng):
@@ -125,6 +126,14 @@ def mutate(text, variant, rng):
         if not laters:
             return None
         rows[rng.choice(laters)]["arrival_seconds"] = "1.0"
+    elif variant == "later_both":          # a later row that looks like the first row of another pipeline, under the same id
+        if not laters:
+            return None
+        j = rng.choice(laters)
+        rows[j]["arrival_seconds"] = "1.0"
+        rows[j]["priority"] = "QUERY"
+        if rng.random() < 0.7:
+            rows[j]["parents"] = ""
     elif variant == "bad_prio":
         rows[i]["priority"] = "URGENT"
     elif variant == "lowercase_prio":
@@ -159,7 +168,7 @@ def case_lines(seed, tid0):
         backj, text2 = None, text
     lines.append([{"kind": "roundtrip", "tid": tid0, "w": project(intended), "rows": rows_json(text), "back": backj or [], "backok": backj is not None, "rows2": rows_json(text2),
                    "seed": seed}])
-    for k, variant in enumerate(rng.sample(MALFORMED, 3)):
+    for k, variant in enumerate(rng.sample(MALFORMED, 4)):
         bad = mutate(text, variant, rng)
         if bad is None:
             continue
@@ -170,7 +179,7 @@ def case_lines(seed, tid0):
             refused = True
         lines.append([{"kind": "malformed", "tid": tid0 + 1 + k, "variant": variant, "rows": rows_json(bad), "refused": refused, "seed": seed}])
     # and the untouched file is accepted
-    lines.append([{"kind": "malformed", "tid": tid0 + 5, "variant": "none", "rows": rows_json(text), "refused": backj is None, "seed": seed}])
+    lines.append([{"kind": "malformed", "tid": tid0 + 6, "variant": "none", "rows": rows_json(text), "refused": backj is None, "seed": seed}])
     return lines
 
 
